@@ -14,7 +14,6 @@
  *  limitations under the License.
  */
 
-use crate::input_text::buffer::REALLY_MAX_LENGTH;
 use std::ops::Range;
 
 #[derive(Clone)]
@@ -128,9 +127,6 @@ pub fn resolve_edits(
                 c.encode_utf8(&mut [0; 4]),
             ),
         };
-        if cur_len > REALLY_MAX_LENGTH as isize {
-            return cur_len as usize;
-        }
     }
     target.push_str(&source[start..]);
     target_mapping.extend(source_mapping[start..].iter());
